@@ -4,7 +4,29 @@ import (
 	"os"
 	"strconv"
 	"strings"
+	"time"
+
+	"verif/harness/internal/trace"
 )
+
+// opWatch arms a watchdog for one call into the engine: if it does not return in time the event is
+// recorded with the outcome "hang" (and the given extra fields) and the driver process ends with exit code 3.
+func opWatch(tw *trace.Writer, ev map[string]interface{}, d time.Duration, extra map[string]interface{}) *time.Timer {
+	return time.AfterFunc(d, func() {
+		out := map[string]interface{}{}
+		for k, v := range ev {
+			out[k] = v
+		}
+		for k, v := range extra {
+			out[k] = v
+		}
+		out["res"] = "hang"
+		out["panic"] = "hang"
+		tw.Emit(out)
+		tw.Flush()
+		os.Exit(3)
+	})
+}
 
 func splitCSV(s string) []string {
 	if s == "" {
